@@ -158,7 +158,26 @@ impl Run {
         });
         let ans = match r {
             None => "panic".to_string(),
-            Some(Ok(p)) => format!("ok {}", g1_render(&G1Affine::from(p))),
+            Some(Ok(p)) => {
+                // the property's second sentence, checked directly on what the real decoder accepted
+                use midnight_curves::CurveAffine;
+                let a = G1Affine::from(p);
+                let mut w = vec![];
+                <G1Projective as ProcessedSerdeObject>::write(&p, &mut w, fmt).unwrap();
+                let on_curve = bool::from(a.is_on_curve());
+                let in_subgroup = p * (-F::from(1)) + p == G1Projective::default();
+                if !on_curve || (fi == 0 && !in_subgroup) || w != chunk {
+                    self.ctx.oracle_fail(
+                        &format!("g1-read:{fs}:accepted-invalid"),
+                        &format!(
+                            "checked G1 decoder accepted bytes that are {}",
+                            if !on_curve { "not on the curve" } else if w != chunk { "not the canonical encoding of the decoded point" } else { "a point outside the prime-order subgroup (compressed format)" }
+                        ),
+                        json!({"format": fs, "bytes_hex": hex(chunk), "decoded": g1_render(&a), "reencoded": hex(&w)}),
+                    );
+                }
+                format!("ok {}", g1_render(&a))
+            }
             Some(Err(e)) => format!("err {}", io_class(&e)),
         };
         let nontrivial = ans.starts_with("ok");
@@ -173,7 +192,22 @@ impl Run {
         });
         let ans = match r {
             None => "panic".to_string(),
-            Some(Ok(p)) => format!("ok {}", g2_render(&G2Affine::from(p))),
+            Some(Ok(p)) => {
+                use midnight_curves::CurveAffine;
+                let a = G2Affine::from(p);
+                let mut w = vec![];
+                <G2Projective as ProcessedSerdeObject>::write(&p, &mut w, fmt).unwrap();
+                let on_curve = bool::from(a.is_on_curve());
+                let in_subgroup = p * (-F::from(1)) + p == G2Projective::default();
+                if !on_curve || (fi == 0 && !in_subgroup) || w != chunk {
+                    self.ctx.oracle_fail(
+                        &format!("g2-read:{fs}:accepted-invalid"),
+                        "checked G2 decoder accepted bytes that are off the curve, outside the subgroup (compressed) or non-canonical",
+                        json!({"format": fs, "bytes_hex": hex(chunk), "decoded": g2_render(&a), "reencoded": hex(&w)}),
+                    );
+                }
+                format!("ok {}", g2_render(&a))
+            }
             Some(Err(e)) => format!("err {}", io_class(&e)),
         };
         let nontrivial = ans.starts_with("ok");
@@ -198,6 +232,11 @@ impl Run {
 }
 
 fn main() {
+    let args: Vec<String> = std::env::args().collect();
+    if args.len() == 4 && args[1] == "--irb-child" {
+        sweeps2::irb_child(&args[2], args[3].parse().expect("start index"));
+        return;
+    }
     let ctx = Ctx::from_args("C16");
     let mut run = Run {
         ctx,
